@@ -9,8 +9,9 @@ pub fn lookup(name: &str) -> Option<fn()> {
         .or_else(|| super::chars_h::lookup_uf(name))
         .or_else(|| super::exact_h::lookup(name))
         .or_else(|| super::uni_h::lookup(name))
-        .or_else(|| super::uni_h::repr::lookup(name))
         .or_else(|| super::pattern_h::lookup(name))
+        .or_else(|| super::compose_h::lookup(name))
+        .or_else(|| super::utf32_h::lookup(name))
 }
 
 #[cfg(test)]
